@@ -32,6 +32,8 @@ pub enum OmitForm {
     OmitFwdTrue,
     Lt, // '<' sugar: omit_fwd
     Gt, // '>' sugar: omit_inv
+    /// both modifiers on one step: left out in either direction
+    Both,
 }
 
 #[derive(Clone, Debug, PartialEq, Eq, Hash)]
@@ -171,6 +173,10 @@ pub fn render_step(bases: &[Base], st: &Step) -> (&'static str, String) {
         OmitForm::OmitFwdTrue => post.push("omit_fwd=true"),
         OmitForm::Lt => sep = "<",
         OmitForm::Gt => sep = ">",
+        OmitForm::Both => {
+            post.push("omit_fwd");
+            post.push("omit_inv");
+        }
     }
     let mut parts: Vec<&str> = Vec::new();
     parts.extend(pre);
@@ -205,10 +211,10 @@ impl Step {
         self.inv != InvForm::None
     }
     fn omit_fwd(&self) -> bool {
-        matches!(self.omit, OmitForm::OmitFwd | OmitForm::OmitFwdTrue | OmitForm::Lt)
+        matches!(self.omit, OmitForm::OmitFwd | OmitForm::OmitFwdTrue | OmitForm::Lt | OmitForm::Both)
     }
     fn omit_inv(&self) -> bool {
-        matches!(self.omit, OmitForm::OmitInv | OmitForm::Gt)
+        matches!(self.omit, OmitForm::OmitInv | OmitForm::Gt | OmitForm::Both)
     }
 }
 
@@ -517,7 +523,7 @@ fn enumerate_bare(rep: &Report, bases: &[Base], steps: &[Step]) {
 }
 
 const ALL_INV: [InvForm; 6] = [InvForm::None, InvForm::Suffix, InvForm::Prefix, InvForm::Infix, InvForm::EqTrue, InvForm::PrefixEqTrue];
-const ALL_OMIT: [OmitForm; 6] = [OmitForm::None, OmitForm::OmitFwd, OmitForm::OmitInv, OmitForm::OmitFwdTrue, OmitForm::Lt, OmitForm::Gt];
+const ALL_OMIT: [OmitForm; 7] = [OmitForm::None, OmitForm::OmitFwd, OmitForm::OmitInv, OmitForm::OmitFwdTrue, OmitForm::Lt, OmitForm::Gt, OmitForm::Both];
 
 pub fn run(tier: Tier) -> Report {
     let rep = Report::new("C03", tier, "model_checking");
